@@ -45,6 +45,22 @@ Cred(crs, x, a, b, tc) ==
 
 CredMatrix(crs, x, A, tc) == [a \in A |-> [b \in A |-> Cred(crs, x, a, b, tc)]]
 
+(* float exactness of stage 1 (R5): the IEEE computation of one entry agrees with the exact rational when every    *)
+(* intermediate quantity - partial concordances, the global concordance, the applied discordances and their       *)
+(* factors - is a dyadic rational (sums, products and representable quotients of doubles are then exact);          *)
+(* otherwise the entry may be off by rounding even if its exact value happens to be dyadic (2/3 x 1/4 / (1/3))    *)
+CredInexact(crs, x, a, b, tc) ==
+  IF a = b THEN FALSE
+  ELSE LET C == DOMAIN crs
+           cd == [j \in C |-> ConcDisc(crs[j], x[a][j], x[b][j], tc)]
+           K == SumOver(C, LAMBDA j : crs[j].k)
+           conc == RDiv(RSumOver(C, [j \in C |-> RMul(R(crs[j].k), cd[j].c)]), R(K))
+           veto == {j \in C : RGt(cd[j].d, conc)}
+       IN \/ \E j \in C : ~RIsDyadic(cd[j].c) \/ ~RIsDyadic(cd[j].d)
+          \/ ~RIsDyadic(conc)
+          \/ \E j \in veto : ~RIsDyadic(RDiv(RSub(ROne, cd[j].d), RSub(ROne, conc)))
+InexactMatrix(crs, x, A, tc) == [a \in A |-> [b \in A |-> CredInexact(crs, x, a, b, tc)]]
+
 (* ---------------- stage 2: distillation ---------------- *)
 (* M : A -> A -> rational (diagonal ignored), s = [a, b] rationals: s(x) = a*x + b;          *)
 (* dir = "asc" (best qualification first) or "desc" (worst first).                            *)
@@ -99,6 +115,18 @@ Fragile(M, A, s) ==
       sdy == RIsDyadic(s.a) /\ RIsDyadic(s.b)
   IN (nondy # {} \/ ~sdy) /\
      (\/ \E e \in ents : \E f \in ents : e # f /\ REq(val(e), val(f)) /\ (~RIsDyadic(val(e)) \/ ~sdy)
+      \/ \E e \in ents : \E f \in ents : REq(val(e), RSub(val(f), SVal(s, val(f)))) /\ ~RIsZero(SVal(s, val(f)))
+      \/ \E e \in ents : REq(val(e), RAdd(M[e[2]][e[1]], SVal(s, val(e)))))
+
+(* the same with stage-1 inexactness X[a][b] (InexactMatrix): an entry computed through non-dyadic intermediates *)
+(* counts as inexact even if its exact value is dyadic                                                          *)
+FragileX(M, X, A, s) ==
+  LET ents == Pairs(A)
+      val(e) == M[e[1]][e[2]]
+      inex(e) == ~RIsDyadic(val(e)) \/ X[e[1]][e[2]]
+      sdy == RIsDyadic(s.a) /\ RIsDyadic(s.b)
+  IN ((\E e \in ents : inex(e)) \/ ~sdy) /\
+     (\/ \E e \in ents : \E f \in ents : e # f /\ REq(val(e), val(f)) /\ (inex(e) \/ inex(f) \/ ~sdy)
       \/ \E e \in ents : \E f \in ents : REq(val(e), RSub(val(f), SVal(s, val(f)))) /\ ~RIsZero(SVal(s, val(f)))
       \/ \E e \in ents : REq(val(e), RAdd(M[e[2]][e[1]], SVal(s, val(e)))))
 
